@@ -11,7 +11,7 @@ EndRecord == [tid |-> P.tid, ci |-> ci, fi |-> fi, events |-> evlog, verdict |->
 SpecRow == [prog |-> prog, cfg |-> cfg, skips |-> P.skips, events |-> evlog, base |-> [ran |-> FALSE],
             end |-> [verdict |-> Verdict, ran |-> TRUE, status |-> [el \in 1..N |-> StatusOf(el)], hook_failed |-> hookFailed,
                      step_status |-> stepst, eff |-> [el \in 1..N |-> <<>>], errmarks |-> cap.errmarks,
-                     real_out |-> cap.rout, real_err |-> cap.rerr]]
+                     real_out |-> cap.rout, real_err |-> cap.rerr, user_log |-> cap.ulog]]
 \* every clause of every property holds on every behaviour of the design -- except the named defect families
 \* (a violation is printed, not raised, so that TLC goes on to explore -- and emit -- every behaviour; the check turns
 \*  each DESIGNVIOL line into a design-level violation of the owning property)
